@@ -763,6 +763,24 @@ def failed_use(det, case, X):
         pass
 
 
+def reconfigure(det, case, key):
+    """in a third of the cases the detector's component `key` (a cost with a `param` hyper-parameter) is re-configured through
+    nested set_params to another parameter and back: the detector must then behave exactly as constructed (anything derived
+    from the component in __init__ is rebuilt by set_params, which resets the object before it forwards nested keys)"""
+    if _bits(case, 38, 3) != 0:
+        return det
+    comp = det.get_params().get(key)
+    if comp is None or "param" not in comp.get_params():
+        return det
+    intended = comp.get_params()["param"]
+    other = 3.0 if type(comp).__name__ == "L2Cost" else (3.0, 2.0)
+    if intended is not None:
+        other = None
+    det.set_params(**{key + "__param": other})
+    det.set_params(**{key + "__param": intended})
+    return det
+
+
 def fit_for(det, case, X, reps=4):
     """fit the detector in one of three ways and return (the data object to predict on, rows seen by fit):
     same         fit on the data itself;
